@@ -769,6 +769,48 @@ def destructor_filter_ready(M, m):
                     ds = [s for s in c2.sites if s.key == DROP]
                     if len(ds) == 1 and _comp_index(ds[0].arg(0), ("param", 2)) == 1 - st_pos and always_reached(c2, [ds[0].block]):
                         return True
+    # ---------------------------------------------------------------- form E
+    # `slots.iter_mut().enumerate().filter(|(i, _)| state[*i].is_ready())` then a loop dropping the slot component:
+    # the index is attached before the filter, so every slot is looked up under its own position
+    for f in [s for s in di.sites if s.callee.name == "filter"]:
+        src, cl = f.arg(0), f.arg(1)
+        if not (src is not None and src[0] == "call" and src[1][1] == "enumerate" and src[2] and src[2][0][0] == "call"
+                and src[2][0][1][1] in ("iter_mut", "iter") and src[2][0][2] and self_path(src[2][0][2][0]) is not None
+                and not _is_state_field(M, m, src[2][0][2][0])):
+            continue
+        if not (cl[0] == "agg" and cl[1][0] == "closure"):
+            continue
+        cb = M.by_cdef.get(cl[1][1])
+        if cb is None:
+            continue
+        ci = M.info(cb)
+        caps = list(cl[2])
+        preds = [s for s in ci.sites if s.callee.key == ("PollState", "is_ready")]
+        if len(preds) != 1:
+            continue
+        a = preds[0].arg(0)
+        # state[<item>.0] with `state` a captured reference to the member's state table
+        if not (a[0] == "index" and a[1][0] == "field" and a[1][1] == ("param", 1) and isinstance(a[1][2], int) and a[1][2] < len(caps)
+                and _is_state_field(M, m, caps[a[1][2]]) and _comp_index(a[2], ("param", 2)) == 0):
+            continue
+        rets = [t for b_, i_, rv in ci.assigns_to_return() for t in [ci.T.of_rvalue(rv, 0) if rv.get("k") != "callresult" else ci.T.of_call(b_, cb.term(b_), 0)]]
+        if not rets or not all(t[0] == "call" and t[3] == preds[0].block for t in rets):
+            continue
+        if not always_reached(di, [f.block]):
+            continue
+        for s in di.sites:
+            if s.key == DROP:
+                r = scan.loop_item_root(s.arg(0))
+                if r is not None and r[2] and r[2][0][0] == "call" and r[2][0][3] == f.block:
+                    item = ("field", ("variant", r, "Some"), 0)
+                    if _comp_index(s.arg(0), item) == 1:
+                        nxt = di.by_block.get(r[3])
+                        se = di.outcome_edges(nxt, "Some") if nxt else []
+                        lp = body.innermost_loop(s.block)
+                        if se and lp:
+                            ok, _ = di.must_reach([t for _, t in se], [s.block], [lp[0]] + list(di.return_blocks))
+                            if ok:
+                                return True
     # ---------------------------------------------------------------- form C
     # `for i in state.ready_indexes() { slots[i].assume_init_drop() }`  (ready_indexes = indexes whose state is Ready: C02.UTIL)
     for s in di.sites:
